@@ -15,18 +15,19 @@ from checks.common import confirm_with, replay_with
 ALPHA = "{97, 32, 10, 13, 0, 35, 96}"
 
 
-def cfg(maxlen, chunk, emit=True, view=True, props=True):
+def cfg(maxlen, chunk, emit=True, view=True, props=True, maxbuf=1000, alpha=None):
     return """INIT Init
 NEXT Next
-%sINVARIANTS StreamEqualsMemory TilingInv NoReadAfterLatch OffsetInv
+%sINVARIANTS StreamEqualsMemory TilingInv NoReadAfterLatch OffsetInv BufBounded LimitPrefix LimitNotPremature FitsNeverLimited
 %s%sCHECK_DEADLOCK FALSE
 CONSTANTS
   Alphabet = %s
   MaxLen = %d
   Chunk = %d
   MaxEmpty = 1
+  MaxBuf = %d
 """ % ("VIEW view\n" if view else "", "PROPERTIES LatchStable Progress\n" if props else "",
-       "CONSTRAINT Emit\n" if emit else "", ALPHA, maxlen, chunk)
+       "CONSTRAINT Emit\n" if emit else "", alpha or ALPHA, maxlen, chunk, maxbuf)
 
 
 def run(ctx):
@@ -36,8 +37,14 @@ def run(ctx):
             dict(module="Stream", cfg_text=cfg(3 if quick else 4, 3), name="Stream_c3", workers=8, timeout=3000)]
     if not quick:
         jobs.append(dict(module="Stream", cfg_text=cfg(6, 2, emit=False), name="Stream_c2_n6", workers=16, timeout=3000))
-    rs = ctx.tlc_many(jobs, parallel=2)
-    outs = [r["out"] for r in rs[:2]]
+    # the size limit ("block too large"): paragraphs and blank lines only, where the toy grammar and the real one cut the same
+    # blocks, so the model's expectation (which line is dropped, which blocks come before it) is exact for the real parser
+    LIM = "{97, 10, 13, 0}"
+    nlim = len(jobs)
+    for mb, ch in ([(5, 2), (7, 2), (6, 1)] if quick else [(4, 2), (5, 2), (6, 2), (7, 2), (8, 3), (6, 1), (9, 2)]):
+        jobs.append(dict(module="Stream", cfg_text=cfg(5 if quick else 6, ch, maxbuf=mb, alpha=LIM), name="Stream_lim_m%d_c%d" % (mb, ch), workers=4, timeout=3000))
+    rs = ctx.tlc_many(jobs, parallel=4)
+    outs = [r["out"] for r in rs[:2]] + [r["out"] for r in rs[nlim:]]
     # TLC-simulated random schedules on longer inputs (history not hidden: the schedule is the behaviour)
     r = ctx.tlc("Stream", cfg(10, 3, view=False, props=False).replace("INIT Init", "INIT InitSim"), name="Stream_sim", simulate="num=%d" % (300 if quick else 4000),
                 depth=30, workers=1, timeout=900)
